@@ -13,7 +13,7 @@ LEVEL_TEXT = ("Static structural proof of necessary conditions: (R18.1) in creat
               "before any run; (R18.5) a backup becomes listed only past the two-entry test and both consistency "
               "raises. Byte identity, interruption at arbitrary I/O steps (the record write itself is not atomic) and "
               "idempotence of re-running are NOT decided.")
-LEVEL_EXTRA = 'Added after the seeded evaluation: (R18.2) the name tested by the same-name refusal is the name used by every write (no re-definition in between); (R18.4) the data tree is scanned (file list, task parsing) only after the restore.'
+LEVEL_EXTRA = 'Added after the seeded evaluation: (R18.2) the name tested by the same-name refusal is the name used by every write (no re-definition in between); (R18.4) the data tree is scanned (file list, task parsing) only after the restore. The same-name refusal also consults the file system; the task filter is not a substring test.'
 
 COPY_NAMES = ("copy", "copy2", "copyfile", "copytree", "move")
 
@@ -106,10 +106,8 @@ def run(ctx):
                       "the in-memory backup table entry is overwritten without the same-name refusal",
                       desc="table store only after the same-name refusal")
 
-    # the name that is tested is the name that is used: no re-definition between the refusal and the writes
-    guards = [c_ for c_ in v.conds(same_name_test)]
-    n_same = 0
-    for gnode in guards:
+    # the name that is tested is the name that is used: some refusal that dominates the write tests the very value that is written
+    def guard_keys(gnode):
         keys = set()
         for x in ast.walk(gnode.ast):
             if isinstance(x, ast.Compare) and any(isinstance(o, (ast.In, ast.NotIn)) for o in x.ops) and \
@@ -120,23 +118,46 @@ def run(ctx):
                 keys |= {y.id for y in ast.walk(x.args[0]) if isinstance(y, ast.Name)}
             if isinstance(x, ast.Subscript) and "backups_dict" in norm(x.value):
                 keys |= {y.id for y in ast.walk(x.slice) if isinstance(y, ast.Name)}
-        for kname in keys:
-            at_guard = {id(d) for d in (rd.at(gnode.ast, kname) or [])}
-            users = [(n, c) for (n, c, k) in sinks] + [(n, n.ast) for n in v.cfg.nodes if n.kind == "stmt" and isinstance(n.ast, ast.Assign)
-                                                       and any(isinstance(t, ast.Subscript) and norm(t.value) == "self.backups_dict"
-                                                               for t in n.ast.targets)]
-            for n, c in users:
-                stmt = n.ast
-                if not depends_on(rd, c if isinstance(c, ast.Call) else stmt, stmt, lambda y, kn=kname: isinstance(y, ast.Name) and y.id == kn):
-                    continue
-                n_same += 1
-                at_use = {id(d) for d in (rd.at(stmt, kname) or [])}
-                ctx.check(at_use == at_guard, "R18.2", create.qualname, c, loc(create, c),
-                          "`%s` is given a new value between the existing-backup test and this use: the name that was tested "
-                          "is not the name that is written, so an existing backup (e.g. the default one, for an empty name) "
-                          "is overwritten" % kname, desc="`%s` at `%s` is the value the refusal tested" % (kname, norm(c)[:40]))
-    if guards:
+            if isinstance(x, ast.Call) and (dotted(x.func) or "") in ("os.path.exists", "os.path.isdir", "os.path.isfile", "os.path.lexists"):
+                keys |= {y.id for y in ast.walk(x) if isinstance(y, ast.Name) and y.id in create.params()}
+        return keys
+    refusals = [c_ for c_ in v.conds(lambda t: True) if ("return" in v.leaves(c_, True) or "raise" in v.leaves(c_, True)) and guard_keys(c_)]
+    name_keys = set()
+    for g_ in refusals:
+        name_keys |= guard_keys(g_)
+    name_keys &= set(create.params())
+    users = [(n, c) for (n, c, k) in sinks] + [(n, n.ast) for n in v.cfg.nodes if n.kind == "stmt" and isinstance(n.ast, ast.Assign)
+                                               and any(isinstance(t, ast.Subscript) and norm(t.value) == "self.backups_dict"
+                                                       for t in n.ast.targets)]
+    n_same = 0
+    for kname in sorted(name_keys):
+        for n, c in users:
+            stmt = n.ast
+            if not depends_on(rd, c if isinstance(c, ast.Call) else stmt, stmt, lambda y, kn=kname: isinstance(y, ast.Name) and y.id == kn):
+                continue
+            n_same += 1
+            at_use = {id(d) for d in (rd.at(stmt, kname) or [])}
+            ok_same = any(v.dominates(g_, n) and kname in guard_keys(g_) and
+                          {id(d) for d in (rd.at(g_.ast, kname) or [])} == at_use for g_ in refusals)
+            ctx.check(ok_same, "R18.2", create.qualname, c, loc(create, c),
+                      "`%s` is given a new value between every existing-backup test and this use: the name that was tested "
+                      "is not the name that is written, so an existing backup (e.g. the default one, for an empty name) "
+                      "is overwritten" % kname, desc="`%s` at `%s` is a value some dominating refusal tested" % (kname, norm(c)[:40]))
+    if refusals:
         ctx.floor("R18.2", "uses of the tested backup name", n_same, 1)
+
+    # the refusal looks at the disk, not only at the table this object loaded when it was built
+    fs_tests = [c_ for c_ in v.conds(lambda t: any(isinstance(x, ast.Call) and (dotted(x.func) or "") in (
+        "os.path.exists", "os.path.isdir", "os.path.isfile", "os.path.lexists") for x in ast.walk(t)))]
+    ok_fs = False
+    for c_ in fs_tests:
+        if "return" in v.leaves(c_, True) or "raise" in v.leaves(c_, True):
+            if all(v.dominates(c_, n) for (n, c, k) in sinks):
+                ok_fs = True
+    ctx.check(ok_fs, "R18.2", create.qualname, "refusal consults the file system", loc(create, create.node),
+              "the same-name refusal only consults the in-memory table (loaded when this manager was constructed, keyed by the literal "
+              "name): `create_backup(files, './x')`, `'x/'` or a manager built before backup `x` existed all overwrite the existing "
+              "backup `x`, whose directory is created with exist_ok=True", desc="existing backup directory refused on disk")
 
     # ---------------- R18.3
     vr = view(ctx, restore)
@@ -153,6 +174,22 @@ def run(ctx):
     ctx.check(bool(filt) and all(mentions(c.ast, "task_names") for c in filt), "R18.3", restore.qualname,
               "task filter", loc(restore, restore.node), "the task filter no longer consults the requested task names",
               desc="task filter consults task_names")
+
+    # the task filter compares a whole task name, not a substring of the file name
+    gt = bm.methods.get("get_task")
+    if gt is None:
+        raise AnalysisError("anchor BackupManager.get_task vanished")
+    ctx.saw(gt)
+    n_sub = 0
+    for x in walk_no_nested(gt.node):
+        if isinstance(x, ast.Compare) and len(x.ops) == 1 and isinstance(x.ops[0], (ast.In, ast.NotIn)):
+            n_sub += 1
+            concat = isinstance(x.left, (ast.BinOp, ast.JoinedStr))
+            ctx.check(not concat, "R18.3", gt.qualname, x, loc(gt, x),
+                      "`%s` is a substring test on the file name: restoring task `go` also rewrites `..._task_gonogo_...` files "
+                      "(restoring only the requested tasks must touch only those files)" % norm(x)[:50],
+                      desc="task membership is not a substring test")
+    ctx.ok("R18.3", "get_task: %d membership tests, none a substring test of a built-up text" % n_sub, "")
 
     # ---------------- R18.4
     disp = prog.find_class("Dispatcher")
